@@ -1237,12 +1237,17 @@ def case_raire(rep):
                     for hint in ((), tuple(cands)) if len(cands) > 2 else ((),):
                         if hint and rng.random() < 0.6:
                             continue
+                        # a positive allowed gap lets the search stop early: truth, sufficiency and "empty iff impossible" must still hold
+                        # (optimality is claimed for a zero gap only); tried on 4-5 candidate profiles, where the frontier is deep enough
+                        agap = 0 if (len(cands) < 4 or rng.random() < 0.7) else rng.choice([5.0, 50.0])
                         inp = {"candidates": cands, "ballots": [list(b) for b in ballots], "total": total, "winner": winner, "difficulty": fname, "order_hint": list(hint)}
+                        if agap:
+                            inp["agap"] = agap
                         rep.case(inp, nontrivial=len(ballots) >= 2)
                         con = RU.Contest("con", list(cands), winner, total, order=list(hint))
                         try:
                             with TimeLimit(10):
-                                res = compute_raire_assertions(con, copy.deepcopy(cvrs), winner, asn_func, False, agap=0)
+                                res = compute_raire_assertions(con, copy.deepcopy(cvrs), winner, asn_func, False, agap=agap)
                         except TimeLimit.Expired:
                             rep.fail("compute_raire_assertions returns (within 10 s on a profile of <= 6 ballots)", inp, got="no result after 10 s")
                             continue
@@ -1273,7 +1278,7 @@ def case_raire(rep):
                                 rep.fail("every elimination order ending in another candidate is contradicted by a returned assertion", inp,
                                          got={"uncovered_order": o, "assertions": [a.to_str() for a in res]})
                                 break
-                        if res and possible:
+                        if res and possible and not agap:
                             worst = max(a.difficulty for a in res)
                             if not math.isclose(worst, opt, rel_tol=1e-9):
                                 rep.fail("largest difficulty of the returned set = the minimum over sufficient sets of true assertions (zero gap)", inp,
